@@ -480,6 +480,9 @@ fn sdd_rep<const P: u128>(name: &str, vt: VTree, prog: &Prog, prefix: usize, tar
         }
     }
     let pool = exec_sdd(&b, prog, prog.ops.len());
+    if target % 2 == 1 {
+        let _ = b.stats();
+    }
     let mut memo = HashMap::new();
     for (i, p) in pool.iter().enumerate() {
         for q in [*p, p.neg()] {
@@ -712,11 +715,30 @@ pub fn run(case: &str, st: &mut Stats) -> Outcome {
         for (oi, ord) in [prog.var_to_pos.clone(), o1.clone()].iter().enumerate() {
             let b = StandardDecisionNNFBuilder::new(order_of(ord));
             let r = b.compile_cnf_topdown(&cnf);
+            // statistics queries are observers: asking for them (here, under one order, before any
+            // hash is cached) must not change what the hash queries answer afterwards
+            if oi == target % 2 {
+                let _ = b.num_logically_redundant();
+                st.bump("topdown_stats_query_before_hashes");
+            }
             let t = tt_bdd(r, nv);
             if t != spec[target] & full(nv) {
                 cx.fails.push(format!("top-down[order{oi}] denotes table {t:x}, the CNF says {:x}", spec[target] & full(nv)));
             }
             cx.check_all(&format!("top-down[order{oi}]"), r, spec[target]);
+            // the per-node cache of a top-down result, one field and one map throughout
+            {
+                let map = create_semantic_hash_map::<P2>(nv);
+                let ord_rs = order_of(ord);
+                let want = defining_sum(spec[target] & full(nv), nv, &cx.w[Ctx::pidx(P2)].clone(), P2);
+                for q in [r, r.neg()] {
+                    let h = q.cached_semantic_hash(&ord_rs, &map).value();
+                    let w = if q == r { want } else { one_minus(want, P2) };
+                    if h != w {
+                        cx.fails.push(format!("top-down[order{oi}]: cached hash {h} in field {P2} but the sum over the models is {w}"));
+                    }
+                }
+            }
             st.bump("topdown_compilations");
         }
     }
@@ -727,6 +749,9 @@ pub fn run(case: &str, st: &mut Stats) -> Outcome {
         st.bump("semantic_sdd_runs");
         let b = SemanticSddBuilder::<P2>::new(vt_rsdd(&vt));
         let pool = exec_sdd(&b, &prog, prog.ops.len());
+        if target % 2 == 0 {
+            let _ = b.stats();
+        }
         let mut memo = HashMap::new();
         let tts: Vec<TT> = pool.iter().map(|p| tt_sdd(*p, &mut memo) & full(nv)).collect();
         let mut hv = vec![];
@@ -774,6 +799,9 @@ pub fn run(case: &str, st: &mut Stats) -> Outcome {
         for (oi, ord) in [prog.var_to_pos.clone(), o2.clone()].iter().enumerate() {
             let b = SemanticDecisionNNFBuilder::<P2>::new(order_of(ord));
             let r = b.compile_cnf_topdown(&cnf);
+            if oi != target % 2 {
+                let _ = b.num_logically_redundant();
+            }
             let t = tt_bdd(r, nv);
             if t != spec[target] & full(nv) {
                 cx.fails.push(format!("SemanticDecisionNNFBuilder[order{oi}] denotes table {t:x}, the CNF says {:x}", spec[target] & full(nv)));
